@@ -27,6 +27,7 @@ type OblResult struct {
 	Queries     int      `json:"queries"`
 	Detail      string   `json:"detail,omitempty"`
 	MustSat     bool     `json:"must_sat,omitempty"`
+	satSeen     bool
 	obls        []*Obligation
 	failed      *Obligation
 	query       string
@@ -260,6 +261,9 @@ func (x *Exec) frameObligations(out *State, rg *Term, penv *SpecEnv) {
 			k = mt.key
 		case "loc":
 			k = locKey(mt.loc)
+		case "obj":
+			// every field of one object: all components "<Type>.<field>"
+			k = mt.key
 		default:
 			continue
 		}
@@ -309,6 +313,8 @@ func (x *Exec) frameObligations(out *State, rg *Term, penv *SpecEnv) {
 						lo := BVBin("bvadd", mt.sl.Off, mt.lo)
 						hi := BVBin("bvadd", mt.sl.Off, mt.hi)
 						allowed = append(allowed, And(Eq(w.obj, mt.sl.Arr), BVCmp("bvule", lo, w.lo), BVCmp("bvule", w.lo, w.hi), BVCmp("bvule", w.hi, hi)))
+					} else if mt.kind == "obj" {
+						allowed = append(allowed, Eq(w.obj, mt.lo))
 					} else if mt.loc.Obj != nil {
 						allowed = append(allowed, Eq(w.obj, mt.loc.Obj))
 					}
@@ -523,6 +529,15 @@ func applyResult(r *OblResult, o *Obligation, sr SolverResult, q *Query) {
 		if r.Solver == "" || r.Solver == "trivial" {
 			r.Solver = sr.Solver
 		}
+		if o.MustSat {
+			// reachability of a program point visited on several paths / unrollings: one feasible visit suffices
+			r.satSeen = true
+			r.Status = "discharged"
+			r.Detail = ""
+		}
+		return
+	}
+	if o.MustSat && r.satSeen {
 		return
 	}
 	bad := "unknown"
